@@ -224,7 +224,14 @@ struct Exec {
       }
       r.count("probe.order_sequences");
     }
-    st.clear_filtration();
+    // Leave the cache in a seeded state for the operations that follow: dropped, filled by a plain sort, or filled while ignoring
+    // infinite values. A later modification makes it stale, which is legal as long as nobody reads the range without
+    // clear_filtration() (the harness never does); library operations must not trust it.
+    switch (seed % 3) {
+      case 0: st.clear_filtration(); break;
+      case 1: (void)read_order(st, mo, false, true); r.count("probe.cache_left_filled"); break;
+      default: if (any_inf) { (void)read_order(st, mo, true, true); r.count("probe.cache_left_filled_ignoring_inf"); } else st.clear_filtration(); break;
+    }
     // a tree of the same type built by another history must give the same sequence
     { T other; build_from_model(other, mo, h2(seed, 77));
 #ifdef GUDHI_USE_TBB
